@@ -275,7 +275,7 @@ func genAccept(c *core.Ctx) {
 	}
 	rec(nil, maxLen)
 	// random longer lists over the whole catalogue
-	nrand := 900
+	nrand := 600
 	if !c.Quick() {
 		nrand = 12000
 	}
@@ -309,6 +309,11 @@ func genAccept(c *core.Ctx) {
 			}
 		}
 		cases = append(cases, ac)
+	}
+	// the degenerate empty id: a hello without ClaimId (AdString gives "") matches
+	// it, in the code and in the model alike; real ids are never empty
+	for _, g := range []greet{cat[1], cat[2], legit(), cat[0], cat[15]} {
+		cases = append(cases, &acceptCase{ID: "", Prev: randID(c), Arr: []arrSpec{{Op: "conn", G: ptr(cat[22])}, {Op: "conn", G: ptr(g)}}})
 	}
 	for _, ac := range cases {
 		ac.run()
@@ -510,6 +515,24 @@ func (pc *proxyCase) term() string {
 func genProxyFn(c *core.Ctx) {
 	cat := rogueCatalogue(c)
 	hellos := append([]greet{legit(), {Kind: "stall"}, {Kind: "stall", Arg: 0}}, cat...)
+	runOne := func(pc *proxyCase, canon string) {
+		pc.run()
+		c.OracleCheck()
+		doc := replayDoc{Kind: "proxyfn", Proxy: pc}
+		report(c, pc.oracle(), doc)
+		c.AddCase(pc.term(), doc)
+		c.Count("proxyfn/" + pc.Res)
+		if pc.Res == "returned" {
+			c.Nontrivial("proxyfn|" + canon)
+		}
+	}
+	// success path on ids of several lengths, and the degenerate empty id
+	for i := 0; i < 6; i++ {
+		runOne(&proxyCase{ID: randID(c), Prev: randID(c), Reply: "ok", Hello: ptr(legit())}, fmt.Sprintf("ok|legit|%d", i))
+	}
+	for _, g := range []greet{cat[1], cat[2], legit(), cat[0]} {
+		runOne(&proxyCase{ID: "", Prev: randID(c), Reply: "ok", Hello: ptr(g)}, "emptyid|"+g.String())
+	}
 	for _, rep := range []string{"ok", "fail", "unsup", "noresult", "garbage", "eof"} {
 		for hi, h := range hellos {
 			if rep != "ok" && c.Quick() && hi%6 != 0 {
